@@ -48,6 +48,41 @@ def build_case(rng, i, item):
             "facts": facts, "ops": ops}
 
 
+def odd_cases(rng):
+    """Layouts outside the product that still have a definite answer: probes for a key file that fail for reasons other than
+    "no such file" (name too long, REDKEY is a file) mean there is no key; names that merely fold to PS3ISO / .iso are not those."""
+    base = {"dir": "PS3ISO", "ext": ".iso", "nesting": "direct", "adjacent": "none", "redkey": "none", "watermark": "none", "len": "long", "mode": "read", "table": "valid"}
+
+    def facts(y, **over):
+        f = {"mode": y["mode"], "isIso": True, "inPs3iso": True, "adjacent": y["adjacent"], "redkey": y["redkey"], "watermark": y["watermark"],
+             "longEnough": True, "tableValid": True}
+        f.update(over)
+        return f
+    out = []
+    # 1. a 255-byte image name: "<base>.dkey" would be 256 bytes
+    y = dict(base)
+    c = build_case(rng, 90001, {"layout": y, "facts": facts(y)})
+    c["name"] = "odd-longname"
+    c["layout"]["path"] = ["PS3ISO", "g" * 251 + ".iso"]
+    c["layout"]["redkeyPath"] = ["REDKEY", "g" * 251 + ".dkey"]
+    out.append(c)
+    # 2. REDKEY is a regular file (the probe below it fails with "not a directory")
+    y = dict(base)
+    c = build_case(rng, 90002, {"layout": y, "facts": facts(y)})
+    c["name"] = "odd-redkey-is-file"
+    c["layout"]["redkeyPath"] = ["REDKEY"]
+    c["layout"]["redkeyKey"] = "this is a file, not a directory"
+    out.append(c)
+    # 3. names that only fold to the special ones under Unicode case mapping (U+0130): ordinary files, even with a key beside them
+    for k, (dname, ext) in enumerate([("PS3\u0130SO", ".iso"), ("PS3ISO", ".\u0130SO"), ("PS3\u0131SO", ".iso")]):
+        y = dict(base, adjacent="valid")
+        c = build_case(rng, 90003 + k, {"layout": y, "facts": facts(y, isIso=(ext == ".iso"), inPs3iso=(dname == "PS3ISO"))})
+        c["name"] = "odd-fold%d" % k
+        c["layout"]["path"] = [dname, "game" + ext]
+        out.append(c)
+    return out
+
+
 def covering(items, rng, n):
     """All pairs of field values + n random ones (a covering array in the weak sense, greedily)."""
     fields = list(items[0]["layout"].keys())
@@ -97,7 +132,7 @@ def run(tier, seed, replay=None):
         rep.add_tlc(gen)
         items = [json.loads(json.loads(x)) for x in gen.printed("LAYOUT")]
         chosen = items if full else covering(items, rng, 300)
-        cases = [build_case(rng, i, it) for i, it in enumerate(chosen)]
+        cases = [build_case(rng, i, it) for i, it in enumerate(chosen)] + odd_cases(rng)
         B = 3000
         for b in range(0, len(cases), B):
             srv.run_and_validate(ctx, cases[b:b + B], rep, module=mod, cfg=cfg, max_rejections=12)
